@@ -16,7 +16,7 @@ ROLES = ["FeatureLine", "RuleLine", "BackgroundLine", "ScenarioLine", "ExamplesL
 ROLE_CATS = {"FeatureLine": ["feature"], "RuleLine": ["rule"], "BackgroundLine": ["background"], "ScenarioLine": ["scenario", "scenarioOutline"],
              "ExamplesLine": ["examples"]}
 TITLES = ["", " name here ", "x", " issue #", " see ticket ##  ", " #", " C# and F#", " trailing colon: ", " `@tag` in title",
-          ":smile: works", ":", "::x", " : spaced", "\ttab before", " #", "# x", " - x", "* y", " | a |", "\u00e9", ":\u00a0", " a:b", "\uff1a x", " x \\", " <a>", " \"\"\"", " eating \\<count\\> cucumbers", " C:\\>dir", " \\< \\\\> \\&", " the `@wip` and `@slow` markers", " `@a``@b`", " R&amp;D budget", " eating &lt;count&gt; cukes", " mail&#64;example &copy", " a &amp b &", " 100%% sure %s {0}"]
+          ":smile: works", ":", "::x", " : spaced", "\ttab before", " #", "# x", " - x", "* y", " | a |", "\u00e9", ":\u00a0", " a:b", "\uff1a x", " x \\", " <a>", " \"\"\"", " eating \\<count\\> cucumbers", " C:\\>dir", " \\< \\\\> \\&", " the `@wip` and `@slow` markers", " `@a``@b`", " R&amp;D budget", " eating &lt;count&gt; cukes", " mail&#64;example &copy", " a &amp b &", " 100%% sure %s {0}", " Totals  per   month ", " tab\tinside\t\tx", "a \u00a0 b\u3000\u3000c"]
 
 
 def tok(line):
@@ -239,6 +239,37 @@ def unit_tables(a):
     return stats
 
 
+def check_table_run(case, stats):
+    """ONE matcher is offered the consecutive lines of a table (line numbers n, n+1, ...), as the parser does: every line gets the verdict
+    it gets alone - a separator row is never a table row, wherever in the run it stands"""
+    ind, rows, first = case["indent"], case["rows"], case["first_line"]
+    m = MD(case["dialect"])
+    seps = [ROWS[r][1] for r in rows]
+    stats.case((ind, tuple(rows), first), any(seps[2:]) or (len(rows) > 2 and not any(seps)), sample=case, labels=["run-of-%d" % len(rows)])
+    for i, r in enumerate(rows):
+        row, sep = ROWS[r]
+        line = " " * ind + row + "\n"
+        t = gh.Token(gh.GherkinLine(line, first + i), {"line": first + i})
+        got = m.match_TableRow(t)
+        if got != (not sep):
+            raise Violation(case, "line %d of a run of table lines through one matcher, %r: match_TableRow returned %r, expected %r (separator row: %r)" % (i + 1, line, got, not sep, sep))
+        if got:
+            from vlib.refs import ref_row
+            have = [(c["text"], c["column"]) for c in t.matched_items]
+            if have != ref_row(line):
+                raise Violation(case, "line %d of a run of table lines through one matcher, %r: cells %r, expected %r" % (i + 1, line, have, ref_row(line)))
+
+
+def unit_table_runs(a):
+    import itertools
+    stats = Stats()
+    cases = [{"sub": "table-run", "dialect": d, "indent": ind, "rows": list(rows), "first_line": first}
+             for n in range(2, a["maxlen"] + 1) for rows in itertools.product(range(len(ROWS)), repeat=n)
+             for d, ind, first in (("en", 2, 1), ("fr", 5, 9))]
+    sweep(stats, [c for i, c in enumerate(cases) if i % a["nshards"] == a["shard"]], check_table_run)
+    return stats
+
+
 def g_tagline(s):
     prose = ["", " ", "some prose ", "and ", "x", "(see) ", "# ", "- ", "é ", "@not-quoted "]
     tags = ["@a", "@b", "@tag-1", "@é", "@x.y", "@\U0001F600", "@wip"]
@@ -358,7 +389,7 @@ def replay(case, stats):
         return check_cross(case, stats)
     if case["sub"] == "tags-raw":
         return check_tags_raw(case, stats)
-    return {"title": check_title, "step": check_step, "table": check_table, "tags": check_tags}[case["sub"]](case, stats)
+    return {"title": check_title, "step": check_step, "table": check_table, "tags": check_tags, "table-run": check_table_run}[case["sub"]](case, stats)
 
 
 def run(ctx):
@@ -367,6 +398,7 @@ def run(ctx):
     ctx.units("title-lines", unit_titles, [{"shard": i, "nshards": ns} for i in range(ns)], procs=ns)
     ctx.units("step-lines", unit_steps, [{"shard": i, "nshards": ns} for i in range(ns)], procs=ns)
     ctx.units("table-lines", unit_tables, [{}])
+    ctx.units("table-line-runs-one-matcher", unit_table_runs, [{"maxlen": 4 if q else 5, "shard": i, "nshards": ns} for i in range(ns)], procs=ns)
     ctx.units("tag-lines", unit_tags, [{"n": 2250 if q else 12000, "seed": ctx.seed, "shard": i} for i in range(8 if q else 16)], procs=16)
     ctx.units("tag-lines-raw-exhaustive", unit_tags_raw, [{"maxlen": 8 if q else 10, "shard": i, "nshards": ns} for i in range(ns)], procs=ns)
     ctx.exhaustive = False
